@@ -73,6 +73,12 @@ def corpus():
     # or user); the peer then never closes
     c['A19_rq_v2_refused'] = dict(role='acceptor', user={'reject': (1, 2, 2)}, steps=[
         ('peer', [rc.enc_assoc_rq(contexts=CTXS, max_length=4096, protocol=2)]), ('fin',)])
+    # the peer goes on talking while the provider waits for its local user, who is in no hurry
+    # (never takes the indication): what follows the request is read all the same
+    c['A21_rq_abort_user_idle'] = dict(role='acceptor', user={'deaf_after': 0}, steps=[
+        ('peer', [rq, rc.enc_abort(0, 0)]), ('fin',)])
+    c['A22_rq_echo_rel_user_idle'] = dict(role='acceptor', user={'deaf_after': 0}, steps=[
+        ('peer', [rq, echo_rq(1), rel_rq]), ('fin',)])
     c['A6_unknown_type'] = dict(role='acceptor', steps=[
         ('peer', [rq]), ('peer', [rc.enc_pdu(0x0B, b'\0\0\0\0')]), ('fin',)])
     c['A4b_abort_then_fin'] = dict(role='acceptor', steps=[
